@@ -90,11 +90,12 @@ CLAIMS = {
     'C11': dict(level='proof',
         text='PROVED for any number of probes, spike counts, id ranges and time vectors: _load_multiple_spike_times (the order is a permutation of the concatenation, merged times non-decreasing, simultaneous spikes keep '
              'concatenation order = within-probe order and probe order across probes, from the stability of the sort); _load_multiple_spike_arrays (output i is the element at position order[i] of the block it came from); '
-             'Merger.write_spike_clusters (loop invariants over the lists of per-probe arrays): each probe\'s cluster and template ids are shifted by ONE per-probe offset and the id ranges of different probes never collide; '
+             'Merger.write_spike_clusters (loop invariants over the lists of per-probe arrays): each probe\'s cluster and template ids are shifted by ONE per-probe offset and the id ranges of different probes never collide, and the code\'s own '
+             'consistency assert (largest merged id + 1 == size of the cluster-probe table) is PROVED from the fact that the spike order reaches every spike; '
              'frame contract: Merger.merge writes only below the output directory (inputs are only read). BOUNDED only: renumbered TSV metadata, the probe table, amplitudes, byte-identity of inputs, end-to-end merges of 1-4 generated probes.',
-        note='Assumed: 1-D NumPy theory (stable argsort, gather, in-place +=, np.max, concatenation of lists of arrays); np.load returns fresh arrays; ids non-negative; every probe has a spike; the code\'s own consistency assert '
-             'max(id)+1 == table size is ASSUMED (needs that the spike order reaches every spike; bounded only); frame assumptions A-PURE / A-FS.',
-        assumptions=['A-LIB 1-D NumPy array theory (pyvc/npth.py)', 'A-ASSERT write_spike_clusters consistency assert assumed', 'A-PURE', 'A-FS']),
+        note='Assumed: 1-D NumPy theory (stable argsort, gather, in-place +=, np.max, concatenation of lists of arrays); np.load returns fresh arrays; ids non-negative; every probe has a spike; the spike order is onto the '
+             'concatenation (a precondition of write_spike_clusters, which is what _load_multiple_spike_times ensures: a permutation); frame assumptions A-PURE / A-FS.',
+        assumptions=['A-LIB 1-D NumPy array theory (pyvc/npth.py)', 'A-PURE', 'A-FS']),
     'C12': dict(level='proof',
         text='PROVED for any number of probes, channel counts and channel maps: Merger.write_channel_data (loop invariant over the list of per-probe arrays) — the merged channel map consists of the probes\' maps '
              'as contiguous blocks in input order, each shifted by ONE per-probe constant (registered in channel_offsets), and channel_probe labels block k with k; _concat = blocks in order. BOUNDED only: '
